@@ -56,6 +56,13 @@ func c04Shape(seed uint64, transport string, k int) *spec.RunSpec {
 	se := spec.Session{ID: 0, StartUs: 100000, CloseMode: "barrier", Closer: "client", CloseDelayUs: 1000}
 	se.C2S = spec.Script{Writes: []int{700}, GapsUs: []int64{1}, ReadBufs: []int{32768}, ReadGapUs: 1}
 	se.S2C = spec.Script{Writes: []int{900}, GapsUs: []int64{1}, ReadBufs: []int{32768}, ReadGapUs: 1}
+	if (k/2)%2 == 1 {
+		// the second machine belongs to the same user and its session overlaps the others
+		c1.User = 0
+		se.StartUs = 0
+		se.C2S = spec.Script{Writes: []int{700, 300, 1200}, GapsUs: []int64{150000}, ReadBufs: []int{32768}, ReadGapUs: 1}
+		se.S2C = spec.Script{Writes: []int{900, 100, 1100}, GapsUs: []int64{170000}, ReadBufs: []int{32768}, ReadGapUs: 1}
+	}
 	c1.Sessions = append(c1.Sessions, se)
 	s.Clients = []spec.Client{c0, c1}
 	s.Net = spec.Net{LatencyUs: int64(r.Pick(1000, 5000, 20000)), ChunkMode: r.Pick(0, 1, 3)}
@@ -72,9 +79,9 @@ func c04Shape(seed uint64, transport string, k int) *spec.RunSpec {
 func c04Enumerate(bin string, master uint64, tier string) ([]*spec.RunSpec, []string) {
 	var out []*spec.RunSpec
 	var problems []string
-	shapes := 2
+	shapes := 4
 	if tier == "thorough" {
-		shapes = 10
+		shapes = 12
 	}
 	for k := 0; k < shapes; k++ {
 		transport := []string{"tcp", "udp"}[k%2]
@@ -172,12 +179,63 @@ func c04Enumerate(bin string, master uint64, tier string) ([]*spec.RunSpec, []st
 						w := wire(fmt.Sprintf("%s/%d/%d", h.Scope, h.Dir, h.Index))
 						if len(w) > 0 {
 							add(fmt.Sprintf("dgram%d/splice-from-%s-sess%d", gi, h.Scope, h.Sess), func(s *spec.RunSpec) {
-								s.Net.Rules = append(s.Net.Rules, spec.DgramRule{Client: g.Client, Dir: g.Dir, Index: g.Index, Kind: "corrupt", Off: 0, Del: 1 << 20, Ins: w})
+								s.Net.Rules = append(s.Net.Rules, spec.DgramRule{Client: g.Client, Flow: g.Scope, Dir: g.Dir, Index: g.Index, Kind: "corrupt", Off: 0, Del: 1 << 20, Ins: w})
 							})
 						}
 						if h.Scope != g.Scope {
 							break
 						}
+					}
+				}
+				// a datagram of a session that is still in progress on ANOTHER flow (another
+				// device of the same user, or another user), any segment type
+				for hi := range rr.Geo {
+					h := &rr.Geo[hi]
+					if h.Scope == g.Scope || h.Dir != g.Dir || h.AtUs >= g.AtUs {
+						continue
+					}
+					live := false
+					for _, k := range rr.Geo {
+						if k.Sess == h.Sess && k.Scope == h.Scope && k.AtUs > g.AtUs+2*base.Net.LatencyUs {
+							live = true
+							break
+						}
+					}
+					if !live {
+						continue
+					}
+					if w := wire(fmt.Sprintf("%s/%d/%d", h.Scope, h.Dir, h.Index)); len(w) > 0 {
+						hh := *h
+						add(fmt.Sprintf("dgram%d/splice-from-live-session-on-%s(type%d seq%d)", gi, hh.Scope, hh.Type, hh.Seq), func(s *spec.RunSpec) {
+							s.Net.Rules = append(s.Net.Rules, spec.DgramRule{Client: g.Client, Flow: g.Scope, Dir: g.Dir, Index: g.Index, Kind: "corrupt", Off: 0, Del: 1 << 20, Ins: w})
+						})
+						break
+					}
+				}
+				// reflection: replace the datagram by an authentic datagram of the SAME session
+				// that travelled in the opposite direction earlier (both directions share the
+				// key; only the authenticated type field tells them apart). Prefer one that
+				// carries the same sequence number, then any that is not behind.
+				var best *spec.SegGeo
+				for hi := range rr.Geo {
+					h := &rr.Geo[hi]
+					if h.Sess != g.Sess || h.Scope != g.Scope || h.Dir == g.Dir || h.AtUs >= g.AtUs {
+						continue
+					}
+					switch {
+					case best == nil:
+						best = h
+					case h.Seq == g.Seq && best.Seq != g.Seq:
+						best = h
+					case best.Seq != g.Seq && h.Seq >= g.Seq && (best.Seq < g.Seq || h.Seq < best.Seq):
+						best = h
+					}
+				}
+				if best != nil {
+					if w := wire(fmt.Sprintf("%s/%d/%d", best.Scope, best.Dir, best.Index)); len(w) > 0 {
+						add(fmt.Sprintf("dgram%d/reflect-opposite-direction(type%d seq%d for type%d seq%d)", gi, best.Type, best.Seq, g.Type, g.Seq), func(s *spec.RunSpec) {
+							s.Net.Rules = append(s.Net.Rules, spec.DgramRule{Client: g.Client, Flow: g.Scope, Dir: g.Dir, Index: g.Index, Kind: "corrupt", Off: 0, Del: 1 << 20, Ins: w})
+						})
 					}
 				}
 			}
@@ -214,7 +272,7 @@ func addMutation(s *spec.RunSpec, transport string, g spec.SegGeo, p int64, kind
 		s.Net.Stream = append(s.Net.Stream, f)
 		return
 	}
-	rule := spec.DgramRule{Client: g.Client, Dir: g.Dir, Index: g.Index, Kind: "corrupt", Off: p}
+	rule := spec.DgramRule{Client: g.Client, Flow: g.Scope, Dir: g.Dir, Index: g.Index, Kind: "corrupt", Off: p}
 	switch kind {
 	case "flip":
 		rule.Xor = bit
